@@ -7,6 +7,8 @@ R-own on their input functions (DESIGN §4 C14)."""
 import itertools
 
 from upv import facts, absint, ownrule
+from upv import pathrules as pr
+from upv.facts import enum_name
 from upv.absint import SYM, Machine, Finding, Undecided, PathEnd
 from upv.facts import strip_all_casts, path_of
 from upv.report import Report, HOLDS, VIOLATED, UNDECIDED, OOS
@@ -349,6 +351,39 @@ def sync_streams(P):
     }
 
 
+
+def check_ts_align(rep, repo):
+    """upipe_ts_align chooses its re-chunker (idem / ts_check / ts_sync) from the flow definition it is given: every
+    accepted flow definition goes through that choice"""
+    rep.rule('R-align-select', 'upipe_ts_align_set_flow_def: every return that is not an error constant is preceded, on every path, by the tests on the '
+             'flow definition that select the inner pipe (ubase_ncmp on the definition string) and by upipe_ts_align_store_bin_input(): the pipe that '
+             'cuts the stream is always the one that fits the current definition, never one kept from an earlier definition of another kind')
+    prog = facts.load_with_stubs([], ['lib/upipe-ts/upipe_ts_align.c'], repo=repo, tolerate=False)
+    u = prog.units['lib/upipe-ts/upipe_ts_align.c']
+    fn = u.funcs.get('upipe_ts_align_set_flow_def')
+    if fn is None or not fn.blocks:
+        raise facts.AnalysisBroken('anchor vanished: upipe_ts_align_set_flow_def')
+    ev = pr.Events(fn)
+    store = pr.m_call('upipe_ts_align_store_bin_input')
+    if not ev.find(store):
+        raise facts.AnalysisBroken('upipe_ts_align_set_flow_def no longer calls upipe_ts_align_store_bin_input')
+
+    def accepting(n):
+        if n.get('k') != 'return':
+            return False
+        if not isinstance(n.get('e'), dict):
+            return True
+        en = enum_name(n['e'])
+        if en:
+            return en == 'UBASE_ERR_NONE'
+        e0 = strip_all_casts(fn.resolve(n['e']))
+        return isinstance(e0, dict) and e0.get('k') == 'call'      # a tail call: the verdict of the inner pipe
+    bad = pr.must_precede(ev, store, accepting)
+    rep.add('R-align-select', 'upipe_ts_align_set_flow_def', VIOLATED if bad else HOLDS, fn.loc if not bad else '%s:%s' % (fn.file, bad[0][2].get('l')),
+            **({'what': 'the return at line %s accepts a flow definition (or hands the verdict to a pipe) without having selected and installed the inner pipe for '
+                        'this definition: an inner pipe chosen for an earlier definition keeps cutting (or not cutting) the stream' % bad[0][2].get('l')} if bad else {}))
+
+
 def check_ts_sync(rep, repo, tier):
     from upv import ghost
     if not facts.have_stubs():
@@ -634,4 +669,5 @@ def run(tier='quick', repo=None):
                        'configuration values beyond the enumerated ranges behave alike (the code only compares and does integer division on them)']
     check_ts_sync(rep, repo, tier)
     check_ts_check(rep, repo, tier)
+    check_ts_align(rep, repo)
     return rep
